@@ -17,7 +17,7 @@ def queries(tier):
                 continue
             qs.append(Query("custom_h%d_%s" % (th, "topdown" if o else "bottomup"), "C09_tileset.cpp", "h_custom_roundtrip", {"TH": th, "ORIENT": o}, unwind=uw, timeout=1500, max_alloc=1 << 16,
                             desc="picture 32x%d (%s), symbolic palette and pixels: custom-format bytes match the format description; loading returns the same picture top-down with identical colours" % (th, "top-down" if o else "bottom-up")))
-            qs.append(Query("custom_format_h%d_%s" % (th, "topdown" if o else "bottomup"), "C09_tileset.cpp", "h_custom_roundtrip", {"TH": th, "ORIENT": o, "FORMAT_ONLY": 1}, unwind=uw, timeout=900, max_alloc=1 << 16,
+            qs.append(Query("custom_format_h%d_%s" % (th, "topdown" if o else "bottomup"), "C09_tileset.cpp", "h_custom_roundtrip", {"TH": th, "ORIENT": o, "FORMAT_ONLY": 1}, unwind=uw, timeout=1500, max_alloc=1 << 16,
                             desc="the writer half alone: custom-format bytes of the 32x%d picture match the format description (decides quickly even when the round trip does not)" % th))
             if tier == "quick" and (th, o) != (32, 0):
                 continue
